@@ -10,6 +10,7 @@ import hashlib
 import json
 import math
 import os
+import re
 import sys
 import time
 import traceback
@@ -926,6 +927,10 @@ def _diffcheck(res, fn, cfg, opts, solver, p, obls):
             continue
         if len(ob) > 4 and ob[4] is not None:
             continue    # statistical label: the float run measures it
+        if opts.get('terms_labels') and re.search(opts['terms_labels'],
+                                                  ob[1]):
+            continue    # a term in the RNG stub's variables: the float run
+            #             draws real numbers instead
         if 'grad' in ob[1] or 'sens' in ob[1]:
             tol = 5e-4
         else:
